@@ -217,7 +217,7 @@ impl Out {
     }
 
     pub fn vfmt(&mut self, a: &Version) {
-        self.emit("vfmt", &[enc_version(a)], hex(&a.to_string()));
+        self.emit("vfmt", &[enc_version(a)], format!("{} pre={}", hex(&a.to_string()), b01(a.is_prerelease())));
     }
 
     pub fn vparse(&mut self, t: &str) {
